@@ -94,10 +94,14 @@ def oracle(ck, tier, deep):
         rep = dict(degree=K, c=c.tolist(), r_0=r0, s=s, r_min=rmin, r_max=rmax, reduced=reduced, grid="uniform" if uniform else r.tolist())
         sig = dict(site="Polynomial")
         try:
-            p = quiet(Polynomial, r, rmin, rmax, c.copy(), r_0=r0, s=s, reduced=reduced)
+            cc = c.copy()                       # one coefficient array serves several objects (e.g. pieces of a piecewise function)
+            p = quiet(Polynomial, r, rmin, rmax, cc, r_0=r0, s=s, reduced=reduced)
+            p_again = quiet(Polynomial, r, rmin, rmax, cc, r_0=r0, s=s, reduced=reduced)
         except Exception as e:
             ck.violation(dict(sig, clause="exception"), rep, f"{type(e).__name__}: {e}")
             continue
+        if not np.array_equal(cc, c) or not np.array_equal(p.func, p_again.func) or not np.array_equal(p.abel, p_again.abel):
+            ck.violation(dict(sig, clause="coefficients-consumed"), rep, "the coefficient array was modified, or a second object built from it differs")
         f = lambda q: horner(c, (np.asarray(q, float) - r0) / s)
         lo = max(rmin, 0.0)
         dom = (r >= lo) & (r < rmax)
@@ -243,11 +247,13 @@ def oracle(ck, tier, deep):
     from scipy.interpolate import UnivariateSpline, make_interp_spline, splrep
     for it in range(8 if not deep else 60):
         xs = np.sort(rng.uniform(0, 30, size=12))
+        if it % 2:                       # a spline fitted across the axis (full-diameter profile): the domain starts below r = 0
+            xs = xs - float(rng.uniform(3, 12))
         ys = rng.normal(size=12)
         kind = it % 3
         spl = UnivariateSpline(xs, ys, s=0, k=3) if kind == 0 else make_interp_spline(xs, ys, k=int(rng.integers(1, 4))) if kind == 1 else splrep(xs, ys, k=3)
         ck.count(("S.bspline", kind), suite="S.bspline")
-        r = np.linspace(xs[0], xs[-1], 57, endpoint=False)
+        r = np.linspace(max(0.0, xs[0]), xs[-1], 57, endpoint=False)
         pp = quiet(PiecewisePolynomial, r, quiet(bspline, spl))
         from scipy.interpolate import splev
         want = spl(r) if kind < 2 else splev(r, spl)
@@ -255,7 +261,9 @@ def oracle(ck, tier, deep):
             ck.violation(dict(site="bspline", clause="conversion"), dict(kind=kind, x=xs.tolist(), y=ys.tolist()),
                          f"piecewise polynomial from the B-spline differs from the spline by {np.abs(pp.func - want).max():.3g}")
     # ApproxGaussian
-    for tol in ([4.8e-3, 1e-3, 5e-2, 1e-5] if not deep else [5e-2, 3.7e-2, 1.4e-2, 4.8e-3, 1e-3, 0.86e-3, 1e-4, 0.95e-5, 1e-5]):
+    tols = [4.8e-3, 1e-3, 5e-2, 1e-5] if not deep else [5e-2, 3.7e-2, 1.4e-2, 4.8e-3, 1e-3, 0.86e-3, 1e-4, 0.95e-5, 1e-5]
+    tols += [float(t) for t in np.exp(rng.uniform(np.log(1e-5), np.log(5e-2), size=8 if not deep else 40))]      # any tolerance, not the round ones
+    for tol in tols:
         ck.count(("S.gauss", tol), suite="S.approx-gaussian")
         ag = quiet(ApproxGaussian, tol)
         r = np.linspace(0, 8, 80001)
